@@ -667,18 +667,23 @@ theorem resolver_refines_den_mappedpipes_checked (P : Program) (nm : List String
   twoPhaseT_eq_den_F P (wellTypedTB_sound P h1) P.nfuel (narrowFix_of_acyclicB P.table h2) nm O _
     (storeOfNodes_ext nm _ O) (storeOfNodes_ok nm _ O h4) h3
 
-/-- Specialising a resolved expression to fork `k` of a mapped call (`BindingPath` with a known fork
-index) is evaluating it in that fork — for every store that reads fork assignments through their
-lookups — and keeps it well typed.  (`HasTyR` now admits the `merge` nodes of array-mode map calls of
-run-time size — they stay merges, evaluated in that fork; `hnm`: the expression contains no merge
-over `c` itself, which the outputs of `c`'s callee never do: for such a merge the compiler returns
-the merged value of that fork instead.) -/
+/-- Specialising a resolved expression to one fork of a mapped call (`BindingPath` with a known fork
+index: array index `.i k` of an array-mode call, key `.k s` of a typed-map mode call) is evaluating
+it in that fork — for every store that reads fork assignments through their lookups — and keeps it
+well typed.  `hok` (`pushOk c m e`): the expression contains no merge over `c` itself (the outputs
+of `c`'s callee never do: for such a merge the compiler returns the merged value of that fork
+instead) and every split over `c` in it is in the mode `m` of the call (`HasTyR` admits `merge`
+nodes and typed-map splits since rounds 4 / 5; on the expressions it admitted before, `pushOk c
+false` is `noMergeOf c`). -/
 theorem specialise_to_fork_sound (st : StructTable) (hst : StructsOk st) (F : Nat) (ρ : Store)
-    (hρ : StoreExt ρ) (c : String) (k : Nat) (e : RExp) (t : Ty) (f : ForkAssign) (h : HasTyR st t e)
-    (hnm : noMergeOf c e = true) :
-    evalRT st F ρ f t (pushFork c (.i k) e) = evalRT st F ρ (fset f c (.i k)) t e ∧
-    HasTyR st t (pushFork c (.i k) e) :=
-  pushFork_evalRT st hst F ρ hρ c k e t f h hnm
+    (hρ : StoreExt ρ) (c : String) (ix : Idx) (m : Bool) (hix : IdxMode ix m) (e : RExp) (t : Ty)
+    (f : ForkAssign) (h : HasTyR st t e) (hok : pushOk c m e = true) :
+    evalRT st F ρ f t (pushFork c ix e) = evalRT st F ρ (fset f c ix) t e ∧
+    HasTyR st t (pushFork c ix e) :=
+  pushFork_evalRT st hst F ρ hρ c ix m hix e t f h hok
+
+example : IdxMode (.i 2) false ∧ IdxMode (.k "a") true ∧ ¬ IdxMode (.k "a") false ∧ ¬ IdxMode .none true := by
+  simp [IdxMode]
 
 /-- The run-time phase depends on a fork assignment only through its lookups (the order in which
 the roots were bound does not matter). -/
